@@ -17,3 +17,22 @@ package contracts
 //@ trusted func (*Error).ErrorOrNil
 //@   modifies nothing
 //@   ensures (result == nil) == (e == nil)
+
+//@ package gopkg.in/robfig/cron.v2
+
+// Ghost view of the cron library: registered[c] = number of live registrations of crontab c;
+// specOf[id] = the crontab an entry id was issued for. Entry ids are never reused.
+//@ ghost registered map[string]int
+//@ ghost specOf map[int]string
+
+//@ trusted func (*Cron).AddFunc
+//@   modifies registered, specOf
+//@   ensures registered[spec] == old(registered[spec]) + 1
+//@   ensures forall(c, string, c != spec ==> registered[c] == old(registered[c]))
+//@   ensures old(specOf[result0]) == "" && specOf[result0] == spec
+//@   ensures forall(i, int, i != result0 ==> specOf[i] == old(specOf[i]))
+
+//@ trusted func (*Cron).Remove
+//@   modifies registered
+//@   ensures registered[specOf[id]] == old(registered[specOf[id]]) - 1
+//@   ensures forall(c, string, c != specOf[id] ==> registered[c] == old(registered[c]))
